@@ -249,6 +249,9 @@ func genC05(g *Gen) {
 				g.Run("the same scanner reset and attached again:"+kind, seg)
 			}
 			for _, b := range []int{127, 16 | 32 | 64, 1 | 2 | 4 | 8, 64, 32} {
+				if xs := optSnippets[kind]; len(xs) > 0 && b != 32 {
+					x = xs[(len(x)+b)%len(xs)] // texts in which skipped tokens are followed by rebuilt ones
+				}
 				seg := []Ev{{"op": "new", "kind": kind, "opts": []any{}}, {"op": "setreader", "input": cps(x)}, {"op": "setopts", "opts": toAnyList(optList(b)), "atstart": true}}
 				for j := 0; j < len(x)+2; j++ {
 					if j%2 == 0 {
